@@ -7,9 +7,13 @@ variable {src : Array Char} {r : Tbl} [hr : TblOK src r]
 
 /-! ### file level -/
 
-theorem parsePackage_spec : T src Tr parsePackage (fun _ _ => True) := by
+theorem parsePackage_spec : T src Tr parsePackage (fun id _ => RealIdent src id) := by
   unfold parsePackage
-  hoare
+  refine T.bind (expect_spec _ _) (fun _ => ?_)
+  refine T.bindP (T.anyQ (identifier_spec _)) ⟨fun id hid => ?_⟩
+  split
+  · exact T.pure _ (fun _ _ => hid)
+  · hoare
 
 theorem parseImportSpec_spec : T src Tr parseImportSpec (fun _ _ => True) := by
   unfold parseImportSpec
